@@ -12,7 +12,10 @@ CONSTANT NT
 Ts == 1..NT
 Gone == <<-1>>
 Wr(t) == 64 + t
-Init0 == [kind |-> "none", val |-> [t \in Ts |-> <<Gone, Gone>>], dcount |-> <<0, 0>>, pend |-> [t \in Ts |-> "none"]]
+\* Ptr payloads: 1 and 2 are the common payloads, each holding a handle (member next) to a successor: 3 and 4
+Init0 == [kind |-> "none", val |-> [t \in Ts |-> <<Gone, Gone>>], dcount |-> <<0, 0, 0, 0>>, pend |-> [t \in Ts |-> "none"]]
+Succ(p) == CASE p = <<1>> -> <<3>> [] p = <<2>> -> <<4>> [] OTHER -> <<0>>
+Pred(p) == CASE p = 3 -> 1 [] p = 4 -> 2 [] OTHER -> 0
 \* container kinds (Variants sharing an Array / List / HashMap payload): marker followed by the elements' bytes
 \* xtext / xelem: Xml::Variant handles sharing a text / an element payload (element: marker -6, then the bytes of its type)
 Marker(kind) == CASE kind = "varr" -> -3 [] kind = "vlist" -> -4 [] kind = "vmap" -> -5 [] kind = "xelem" -> -6 [] OTHER -> 0
@@ -61,11 +64,15 @@ Apply(kind, v, t, f) ==
     [] f = "oa" -> IF a # Gone /\ kind = "variant" /\ a # <<>> /\ a[1] = -2 THEN << Tail(a), b >> ELSE v
     [] f = "ob" -> IF b # Gone /\ kind = "variant" /\ b # <<>> /\ b[1] = -2 THEN << a, Tail(b) >> ELSE v
     [] f = "sw" -> IF a # Gone /\ b # Gone /\ kind = "ptr" THEN <<b, a>> ELSE v
+    \* Ptr only: p = p->next (a null handle stays null)
+    [] f = "na" -> IF a # Gone /\ kind = "ptr" /\ a # <<0>> THEN <<Succ(a), b>> ELSE v
+    [] f = "nb" -> IF b # Gone /\ kind = "ptr" /\ b # <<0>> THEN <<a, Succ(b)>> ELSE v
     [] f = "da" -> <<Gone, b>>
     [] f = "db" -> <<a, Gone>>
     [] f = "end" -> <<Gone, Gone>>
     [] OTHER -> v
-Holders(s, p) == Cardinality({ <<t, h>> \in Ts \X {1, 2} : s.val[t][h] = <<p>> })
+\* who keeps payload p alive: the handles referring to it, and the member next of its predecessor while that one lives
+Holders(s, p) == Cardinality({ <<t, h>> \in Ts \X {1, 2} : s.val[t][h] = <<p>> }) + (IF Pred(p) # 0 /\ s.dcount[Pred(p)] = 0 THEN 1 ELSE 0)
 
 Step(ev, s) ==
   CASE ev.op = "setup" -> { [Init0 EXCEPT !.kind = ev.kind, !.val = [t \in Ts |-> IF t <= ev.n THEN InitVal(ev.kind) ELSE <<Gone, Gone>>]] }
@@ -74,9 +81,9 @@ Step(ev, s) ==
     \* return: the real handles hold exactly these values
     [] ev.op = "h" -> IF s.pend[ev.t] = ev.f /\ <<ev.a, ev.b>> = s.val[ev.t] THEN { [s EXCEPT !.pend[ev.t] = "none"] } ELSE {}
     \* a payload is released exactly once, after the last handle referring to it has gone
-    [] ev.op = "destroyed" -> IF s.kind = "ptr" /\ ev.p \in {1, 2} /\ s.dcount[ev.p] = 0 /\ Holders(s, ev.p) = 0
+    [] ev.op = "destroyed" -> IF s.kind = "ptr" /\ ev.p \in 1..4 /\ s.dcount[ev.p] = 0 /\ Holders(s, ev.p) = 0
                               THEN { [s EXCEPT !.dcount[ev.p] = 1] } ELSE {}
     \* the end of the execution: everything without a handle has been released
-    [] ev.op = "end" -> IF ev.verdict = "done" /\ s.kind = "ptr" /\ \E p \in {1, 2} : Holders(s, p) = 0 /\ s.dcount[p] # 1 THEN {} ELSE { s }
+    [] ev.op = "end" -> IF ev.verdict = "done" /\ s.kind = "ptr" /\ \E p \in 1..4 : Holders(s, p) = 0 /\ s.dcount[p] # 1 THEN {} ELSE { s }
     [] OTHER -> { s }
 ================================================================================
